@@ -39,7 +39,9 @@ class FieldScalarModel(FieldModel):
         self.mask = (1 << width)-1
         self.is_signed = is_signed
         self.is_declared_rand = is_rand
-        self.is_used_rand = is_rand
+        # Whether the field is random in the current randomize call.
+        # Only set for the duration of a call (see Randomizer.do_randomize)
+        self.is_used_rand = False
         self.rand_mode = is_rand
         self.rand_if = rand_if
         self.var = None
